@@ -40,3 +40,6 @@ func VerifCatchReply(ctx context.Context, iface *net.Interface, vrfy func(dhcpms
 func VerifSendMessage(ctx context.Context, iface *net.Interface, sender func() ([]byte, net.IP, net.IP)) error {
 	return sendMessage(ctx, iface, sender)
 }
+
+// VerifRunStateBound runs the bound state on the stored reply; with a cancelled context it only computes the deadlines.
+func (dx *dclient) VerifRunStateBound() { dx.runStateBound(stateRenewing) }
